@@ -10,12 +10,39 @@ def found_nodes(st):
     return [a[1] for a in st.addlog if a[0] == 'found']
 
 
-def enum_start(lp):
-    """start value of `for i, x in enumerate(xs, start=S)`"""
+def _is_enumerate(lp):
     e0 = lp.seq.elem(z3.IntVal(0))
-    if isinstance(e0, STuple) and isinstance(e0.items[0], SInt):
+    return isinstance(e0, STuple) and isinstance(e0.items[0], SInt)
+
+
+def enum_start(lp):
+    """start value S of `for i, x in enumerate(xs, start=S)`, or - for the hand-written form `i = S; for x in xs: ...; i += 1` -
+    the value at loop entry of the one int local the body modifies (counter_invariant() then ties that local to the iteration)"""
+    e0 = lp.seq.elem(z3.IntVal(0))
+    if _is_enumerate(lp):
         return z3.simplify(e0.items[0].t)
-    raise KeyError('loop is not an enumerate(..., start=...) loop')
+    try:
+        name = unique_local(lp, SInt)
+    except KeyError:
+        raise KeyError('loop is neither an enumerate(..., start=...) loop nor a loop with one int counter')
+    return lp.entry.locals[name].t
+
+
+def enum_base(lp):
+    """the list the loop walks over (under enumerate or directly)"""
+    return lp.seq.base if _is_enumerate(lp) and getattr(lp.seq, 'base', None) is not None else lp.seq
+
+
+def counter_invariant(lp, start, advanced):
+    """for the hand-written counter form: the counter equals start + advanced at the loop head (nothing for enumerate loops)"""
+    if _is_enumerate(lp):
+        return []
+    try:
+        name = unique_local(lp, SInt)
+    except KeyError:
+        return []       # no counter at all (e.g. an append loop)
+    cur = lp.st.locals.get(name)
+    return [('counter_follows_the_iteration', cur.t == start + advanced if isinstance(cur, SInt) else z3.BoolVal(False))]
 
 
 def unique_local(lp, typ, where='entry'):
@@ -23,5 +50,5 @@ def unique_local(lp, typ, where='entry'):
     st = lp.entry
     names = [n for n in sorted(lp.mods) if isinstance(st.locals.get(n), typ) and not n.startswith('$')]
     if len(names) != 1:
-        raise KeyError('cannot identify the %s local modified by the loop: candidates %s' % (typ.__name__, names))
+        raise KeyError('cannot identify the %s local modified by the loop: candidates %s' % (getattr(typ, '__name__', typ), names))
     return names[0]
